@@ -74,9 +74,9 @@ Proof. exact reqid_family_complete. Qed.
 Print Assumptions C04_outstanding_accepts.
 
 (* The monitor the correspondence check evaluates on the implementation's answers is the
-   boolean form of the statements above: it is true of the model itself, so it can only fire on
-   a case where the implementation departs from the model (entry point ParseXMLResponse). *)
+   boolean form of the statements above: it is true of the model itself, for both entry points,
+   so it can only fire on a case where the implementation departs from the model. *)
 Theorem C04_monitor_holds_of_model :
-  forall c, pc_entry c = 0 -> spcase_agree c = true -> c04_spec c = true.
-Proof. exact c04_monitor. Qed.
+  forall c, spcase_agree c = true -> c04_spec c = true.
+Proof. intros c H. destruct (monitors_hold_of_model c H) as [_ [_ [_ [M _]]]]; exact M. Qed.
 Print Assumptions C04_monitor_holds_of_model.
